@@ -1,24 +1,12 @@
-"""Per-property configuration of ./check (which Lean modules hold the theorems, which model
-driver and harness binary form the correspondence tie, what is assumed)."""
+"""Per-property configuration of ./check: one JSON file per property under propcfg/
+(which Lean modules hold the theorems, which model driver and harness binary form the
+correspondence tie, what is assumed, and the MANIFEST texts)."""
+import glob, json, os
 
-HOOK_COMMITS = []
+_here = os.path.dirname(os.path.abspath(__file__))
+PROPS = {}
+for _f in sorted(glob.glob(os.path.join(_here, "propcfg", "C*.json"))):
+    PROPS[os.path.basename(_f)[:-5]] = json.load(open(_f))
 
-PROPS = {
-    "C13": {
-        "props": ["Compio.Props.C13"],
-        "cex": ["Compio.Cex.C13"],
-        "driver": "c13d",
-        "harness": {"package": "hx-pure", "bin": "c13"},
-        "level_text": "Lean 4 theorems over an executable model of the framers, the Framed read loop and the cmsg builder/iterator: round trip for every frame list and every fragmentation (LengthDelimited 1..8 bytes both endiannesses, any non-empty delimiter), no panic / in-range frames / termination for arbitrary bytes, cmsg iterator in bounds and terminating, decode confined to the message. Model tied to the code by differential execution of the real compio-io on generated cases (hand model + correspondence).",
-        "level_note": "Trusted: Lean kernel (axioms propext, Classical.choice, Quot.sound only), the hand-written model's faithfulness as far as the correspondence harness samples it, identity codec; serde_json codec and Windows cmsg macros not modelled.",
-        "technique": "Lean 4 proof (induction over fragment lists, abstract framer contract) + differential correspondence harness",
-        "trusted_base": [
-            "hand model lean/Compio/Model/Frame.lean of compio-io/src/framed/{frame,read}.rs and Model/Cmsg.lean of ancillary/{mod,sys}.rs (Linux x86-64 cmsghdr layout, libc CMSG_* macros)",
-        ],
-        "assumptions": [
-            "the codec is the identity on payload bytes (BytesCodec); serde_json codec not modelled",
-            "control buffers handed to AncillaryIter have a valid layout (its unsafe contract); hostile bytes are explored for the header walk only",
-            "usize is 64 bit",
-        ],
-    },
-}
+# commits in /repo that add cfg(compio_verif) hooks (recorded in MANIFEST.hooks.source_commits)
+HOOK_COMMITS = json.load(open(os.path.join(_here, "propcfg", "hook_commits.json")))
